@@ -95,6 +95,26 @@ func genRepair(r *rng, index int) *Spec {
 		}
 		sp.Rates = RateSpec{FromMs: 2000, ToMs: 40000, SQLErr: []float64{0, 0.01, 0.03}[r.intn(3)], SQLLost: []float64{0, 0.005}[r.intn(2)], SQLHang: []float64{0, 0.005}[r.intn(2)], SQLSlow: 0.01}
 	}
+	// a deviating replica leaves the registry early in the run; in half of these runs its own
+	// daemon is the manager
+	if index >= 2*grid && index%5 == 0 {
+		x := ha[1+r.intn(len(ha)-1)]
+		if sp.hostSpecByName(x).Init == nil {
+			sp.hostSpecByName(x).Init = repairDevs[[]int{7, 8, 9, 0}[r.intn(4)]].init(master, master, "d1")
+		}
+		if r.chance(0.5) {
+			for i := range sp.Hosts {
+				if sp.Hosts[i].Name == x {
+					sp.Hosts[i].StartDelayMs = 30
+				} else if sp.Hosts[i].Role != "decoy" {
+					sp.Hosts[i].StartDelayMs = 2500
+				}
+			}
+			label += " manager_on=" + x
+		}
+		sp.Timeline = append(sp.Timeline, TLEvent{AtMs: int64(r.pickInt(200, 5000, 9000)), Kind: "zk_delete", Arg: "/test/ha_nodes/" + x})
+		label += " leaves_registry=" + x
+	}
 	sp.World.AutoResetupMs = 10000
 	sp.World.PreConverged = true
 	sp.HealAtMs = 40000
